@@ -602,7 +602,20 @@ def check(ctx):
         c = P.cls(cname)
         init = P.method(c, '__init__')[1]
         o.count()
-        if want not in {ast.unparse(x) for x in ast.walk(init) if isinstance(x, ast.Call)}:
+        from ..norm import single_defs as _sd3
+        d3 = _sd3(init)
+        calls3 = {ast.unparse(subst(x, d3)) for x in ast.walk(init) if isinstance(x, ast.Call)}
+        ps3 = [a.arg for a in init.args.args]
+        if cname == 'GroupInput' and len(ps3) >= 3:
+            # every given input device gets this object as its only upstream -- whatever the loop variable is called
+            wired = any(isinstance(l, ast.For) and isinstance(l.target, ast.Name) and ast.unparse(subst(l.iter, d3)) == ps3[2] and
+                        any(isinstance(x, ast.Call) and ast.unparse(x) == f'{l.target.id}.set_upstream([self])' for b in l.body for x in ast.walk(b))
+                        for l in ast.walk(init))
+        elif cname == 'GroupOutput' and len(ps3) >= 3:
+            wired = f'self.set_upstream({ps3[2]})' in calls3
+        else:
+            wired = want in calls3
+        if not wired:
             o.fail(P, f'{cname}.__init__', want, f'{cname} is not wired into its group ({want} missing)', file=c.mod.path, line=init.lineno)
         else:
             o.witness(cname)
